@@ -136,4 +136,31 @@ def stale_notice(lab, H, id, upto_seq, before_ts=None):
             notices += n
         elif e[1] == 'store' and e[2] == 'load_entry' and H.sid(e[3]) == id:
             tellings += 1
-    return notices >= 1 and tellings >= 2
+    if not (notices >= 1 and tellings >= 2):
+        return False
+    if lab.native_wait:
+        return True          # the backend's own notices arrive asynchronously, at any point
+    # The recorded defect needs a second telling of the id to arrive between the scheduler's cut of its entry and
+    # the claim in _dequeue. The start-up listing is an asynchronous teller (its entries arrive whenever its
+    # greenlet runs); a synthetic notice is handed over at a settled point of the schedule, where that window
+    # is open only while the _dequeue greenlet still waits for a store-pool slot, i.e. with a bounded store pool
+    # that had no free slot when the notice was handed over.
+    told = 0
+    pool_at_announce = None
+    for s in range(0, upto_seq):
+        e = lab.events[s]
+        if e[1] == 'announce' and H.sid(e[2]) == id:
+            pool_at_announce = e[5] if len(e) > 5 else None
+        elif e[1] == 'store' and e[2] == 'write' and H.sid(e[5]) == id:
+            told += 1
+        elif e[1] == 'store' and e[2] == 'load_entry' and H.sid(e[3]) == id:
+            told += 1
+            if told >= 2:
+                return True
+        elif e[1] == 'store' and e[2] == 'wait':
+            for ts, i in e[3]:
+                if H.sid(i) == id:
+                    told += 1
+                    if told >= 2 and pool_at_announce and pool_at_announce[0] == 0:
+                        return True
+    return False
